@@ -155,6 +155,7 @@ func streamUserOp(o *Out, r *Rng, tier string) {
 		}
 	}
 	_ = reRegister(o, r, users, builtins)
+	userFunctions(o, r)
 }
 
 // reRegister: the registries are live — registering an alias again replaces its priority (associativity can only be switched ON:
@@ -271,5 +272,61 @@ func obsRegistry() string {
 	for i, c := range info.PriorityChar {
 		chars[i] = strconv.Itoa(int(c))
 	}
-	return "ok " + strings.Join(ops, ",") + " " + strings.Join(chars, ",")
+	fs := make([]string, len(info.Functions))
+	for i, n := range info.Functions {
+		fs[i] = hexOrDash([]byte(n))
+	}
+	cs := make([]string, len(info.Constants))
+	for i, n := range info.Constants {
+		cs[i] = hexOrDash([]byte(n))
+	}
+	return "ok " + strings.Join(ops, ",") + " " + strings.Join(chars, ",") + " f:" + strings.Join(fs, ",") + " c:" + strings.Join(cs, ",")
+}
+
+// userFunctions: AddFunction / AddConstant file the name in lower case; names are matched without regard to case in expressions
+func userFunctions(o *Out, r *Rng) {
+	root := ajson.NullNode("")
+	dbl := func(n *ajson.Node) (*ajson.Node, error) {
+		v, err := n.GetNumeric()
+		if err != nil {
+			return nil, err
+		}
+		return ajson.NumericNode("", 2*v), nil
+	}
+	type reg struct {
+		kind, alias string
+		val         float64
+	}
+	regs := []reg{{"fn", "Dbl", 0}, {"fn", "TWICE", 0}, {"fn", "qdouble", 0}, {"const", "Kilo", 1000}, {"const", "NIL_K", 0}, {"const", "qhalf", 0.5}}
+	for _, g := range regs {
+		if g.kind == "fn" {
+			ajson.AddFunction(g.alias, dbl)
+			o.Emit("regfn\t"+hexOrDash([]byte(g.alias)), "ok", "")
+		} else {
+			ajson.AddConstant(g.alias, ajson.NumericNode("", g.val))
+			o.Emit("regconst\t"+hexOrDash([]byte(g.alias)), "ok", "")
+		}
+		o.Emit("regdump", obsRegistry(), "")
+		lower := strings.ToLower(g.alias)
+		for _, spell := range []string{lower, strings.ToUpper(lower), g.alias, strings.Title(lower)} {
+			var text string
+			var want float64
+			if g.kind == "fn" {
+				text, want = spell+"(21) + 1", 43
+			} else {
+				text, want = spell+" + 1", g.val+1
+			}
+			obs := obsRPN(text)
+			o.Emit("rpnu\t"+hexOrDash([]byte(text)), obs, "u"+text+obs)
+			o.Check("C09", "user-functions")
+			res, err := ajson.Eval(root, text)
+			if err != nil {
+				o.Fail("C09", "user-functions", "a registered function/constant is not found under this spelling", fmt.Sprintf("Add%s(%q); %s", g.kind, g.alias, text), fmt.Sprint(want), err.Error())
+				continue
+			}
+			if got, gerr := res.GetNumeric(); gerr != nil || got != want {
+				o.Fail("C09", "user-functions", "wrong value", fmt.Sprintf("Add%s(%q); %s", g.kind, g.alias, text), fmt.Sprint(want), fmt.Sprint(got, gerr))
+			}
+		}
+	}
 }
